@@ -63,6 +63,19 @@ def search(res, tier, boost=False):
         # configurations the panel recursion treats specially (seam with all size ratios, corners, nested)
         pairs += [(a, b) for a, b, _ in seam_and_corner_pairs(rng, gamma, 24 if tier == 'quick' else 72)
                   if ok_aspect(a) and ok_aspect(b)]
+        # corpus (kept from earlier rounds, replayed on every run): a panel strictly inside a longer one with unequal
+        # remainders, in touching time slabs - the only use of the Duffy rule on a rectangle with unequal sides
+        pc = rng.randrange(len(gamma.pw_gamma))
+        base = 2 if len(gamma.pw_gamma) == 1 else 0
+        for (lj, mj) in ((2, 1), (3, 1), (3, 4)):
+            big = StubElem((0.5, 1.0), addr_interval(gamma, (pc, base, 0)), gamma.pw_gamma[pc])
+            small = StubElem((0.0, 0.5), addr_interval(gamma, (pc, base + lj, mj)), gamma.pw_gamma[pc])
+            if ok_aspect(big) and ok_aspect(small):
+                pairs += [(big, small)]
+            big2 = StubElem((0.0, 0.5), addr_interval(gamma, (pc, base, 0)), gamma.pw_gamma[pc])
+            small2 = StubElem((0.5, 1.0), addr_interval(gamma, (pc, base + lj, mj)), gamma.pw_gamma[pc])
+            if ok_aspect(big2) and ok_aspect(small2):
+                pairs += [(small2, big2)]
         for te, tr in pairs:
             if te.time_interval[1] <= tr.time_interval[0]:
                 continue
